@@ -443,7 +443,8 @@ class Folder:
                 except _re.error as e:
                     raise Unfoldable(str(e))
         if isinstance(fn, ast.Attribute) and fn.attr in ("replace", "upper", "lower", "strip", "lstrip", "rstrip", "startswith", "endswith", "removeprefix",
-                                                         "removesuffix", "split", "partition", "rpartition", "find", "index", "count", "zfill", "isupper", "hex") and not expr.keywords:
+                                                         "removesuffix", "split", "partition", "rpartition", "find", "index", "count", "zfill", "isupper", "hex", "join", "splitlines", "rsplit", "title",
+                                                         "capitalize", "casefold", "center", "ljust", "rjust", "isdigit", "islower", "expandtabs") and not expr.keywords:
             try:
                 base = self.fold(fn.value, scope)
             except Unfoldable:
